@@ -212,6 +212,226 @@ def judge(rng, ctx):
 
 
 _IDLOG = []
+_AXLOG = []
+
+
+def _ax_fn(x, *others, block_info=None, mode=None, axes=None, rep=None):
+    """Kernel for the drop_axis / new_axis / chunks= calls: logs what it was told and what it was given."""
+    x = np.asarray(x)
+    if mode == "drop":
+        out = x.sum(axis=tuple(axes))
+        for o, how in zip(others, rep):
+            o = np.asarray(o)
+            out = out + (o.sum() if how == "dropped" else o)
+    elif mode == "new":
+        out = x
+        for o in others:
+            out = out + np.asarray(o)
+        for a in sorted(axes):
+            out = np.expand_dims(out, a)
+    else:  # explicit chunks=: every block repeated along one axis
+        out = x
+        for o in others:
+            out = out + np.asarray(o)
+        out = np.repeat(out, rep, axis=axes[0])
+    if block_info is not None:
+        info = {}
+        for k, v in block_info.items():
+            info[str(k)] = None if v is None else {kk: (str(vv) if kk == "dtype" else [list(p) if isinstance(p, (tuple, list)) else p for p in vv] if isinstance(vv, (tuple, list)) else vv) for kk, vv in v.items()}
+        _AXLOG.append({"phase": rec.PHASE["now"], "info": info, "shapes": [list(x.shape)] + [list(np.shape(o)) for o in others], "out_shape": list(np.shape(out))})
+    return out
+
+
+def judge_axes(rng, ctx):
+    """map_blocks with drop_axis / new_axis / explicit chunks= and 1-3 inputs of different rank."""
+    import dask_array as da
+    from vf.oracles import same
+
+    del _AXLOG[:]
+    rec.PHASE["now"] = "build"
+    kind, x, e = make_producer(rng, ctx.tier)
+    mode = rng.choice(["drop", "drop", "new", "chunks"])
+    nothers = rng.choice([0, 1, 1, 2])
+    opts = {"mode": mode, "others": nothers, "dtype": rng.random() < 0.7, "consumer": rng.choice(["none", "none", "slice", "rechunk", "elemwise"])}
+    case = {"producer": kind, "opts": opts, "shape": list(e.shape), "chunks": [list(map(float, c)) for c in x.chunks], "axes_call": True}
+    ctx.current_case = case
+    R = e.ndim
+    if R == 0 or (mode == "drop" and R < 1):
+        return case, []
+    args, enp, in_chunks = [x], [e], [x.chunks]
+    for k in range(nothers):
+        r = rng.randint(1, R) if k == 0 else rng.randint(1, R)
+        shp = e.shape[R - r :]
+        b = (np.arange(int(np.prod(shp)), dtype="f8") * 0.25 + k + 1).reshape(shp)
+        ch = tuple(x.chunks[R - r :])
+        args.append(da.from_array(b, chunks=ch))
+        enp.append(b)
+        in_chunks.append(ch)
+    # axis labels as map_blocks assigns them: position j of a rank-r input aligns with output position R - r + j
+    kw = {}
+    if mode == "drop":
+        nd_drop = rng.randint(1, min(2, R))
+        axes = sorted(rng.sample(range(R), nd_drop))
+        if rng.random() < 0.3:
+            axes_arg = [a - R for a in axes]
+        else:
+            axes_arg = axes if len(axes) > 1 or rng.random() < 0.5 else axes[0]
+        kw["drop_axis"] = axes_arg
+        rep = []
+        exp = e.sum(axis=tuple(axes))
+        for b in enp[1:]:
+            r = b.ndim
+            pos = [R - r + j for j in range(r)]
+            if all(p_ in axes for p_ in pos):
+                rep.append("dropped")
+                exp = exp + b.sum()
+            elif any(p_ in axes for p_ in pos):
+                return case, []  # partially dropped lower-rank input: the kernel would need its own reduction; not modelled
+            else:
+                rep.append("kept")
+                exp = exp + b
+        fkw = {"mode": "drop", "axes": axes, "rep": rep}
+        out_chunks_expected = tuple(c for i, c in enumerate(x.chunks) if i not in axes)
+    elif mode == "new":
+        k = rng.randint(1, 2)
+        axes = sorted(rng.sample(range(R + k), k))
+        kw["new_axis"] = axes if k > 1 or rng.random() < 0.5 else axes[0]
+        exp = e
+        for b in enp[1:]:
+            exp = exp + b
+        for a in axes:
+            exp = np.expand_dims(exp, a)
+        fkw = {"mode": "new", "axes": axes}
+        oc = list(x.chunks)
+        for a in axes:
+            oc.insert(a, (1,))
+        out_chunks_expected = tuple(oc)
+    else:
+        a = rng.randrange(R)
+        repn = rng.randint(2, 3)
+        exp = e
+        for b in enp[1:]:
+            exp = exp + b
+        # blocks are repeated one by one: the result is the block-wise repeat
+        offs = np.concatenate([[0], np.cumsum(x.chunks[a])]).astype(int)
+        exp = np.concatenate([np.repeat(np.take(exp, range(offs[i], offs[i + 1]), axis=a), repn, axis=a) for i in range(len(x.chunks[a]))], axis=a)
+        oc = list(x.chunks)
+        oc[a] = tuple(int(c) * repn for c in x.chunks[a])
+        out_chunks_expected = tuple(oc)
+        kw["chunks"] = out_chunks_expected
+        fkw = {"mode": "chunks", "axes": [a], "rep": repn}
+    if opts["dtype"]:
+        kw["dtype"] = "f8"
+    if any(np.isnan(c).any() for c in map(np.asarray, x.chunks)):
+        return case, []
+    try:
+        y = da.map_blocks(_ax_fn, *args, **kw, **fkw)
+    except Exception as ex:
+        ctx.tab("refused_at_build", f"axes:{mode}:{type(ex).__name__}:{exc_site(ex)}")
+        return case, []
+    problems = []
+    ctx.tab("axes_calls", f"{mode}|others={nothers}")
+    if tuple(tuple(int(c) for c in d) for d in y.chunks) != tuple(tuple(int(c) for c in d) for d in out_chunks_expected):
+        problems.append(("advertised_chunks", f"map_blocks({mode}, {kw}) advertises chunks {y.chunks}, the call implies {out_chunks_expected}", f"axes:{mode}:advertised_chunks"))
+        return case, problems
+    adv_out = expected_layout(y.chunks)
+    # model of block_info[i]: a dropped axis counts as one chunk spanning the whole axis
+    dropped = set(fkw["axes"]) if mode == "drop" else set()
+    new_axes = set(fkw["axes"]) if mode == "new" else set()
+    if mode == "new":
+        survivors = [p_ for p_ in range(R + len(new_axes)) if p_ not in new_axes]  # output positions of input axes 0..R-1
+        out_pos_of_in = {i: survivors[i] for i in range(R)}
+    elif mode == "drop":
+        kept = [i for i in range(R) if i not in dropped]
+        out_pos_of_in = {i: n for n, i in enumerate(kept)}
+    else:
+        out_pos_of_in = {i: i for i in range(R)}
+    z, ez = y, exp
+    c = opts["consumer"]
+    if c == "slice" and exp.ndim:
+        sl = tuple(slice(rng.randint(0, 1), None) for _ in range(exp.ndim))
+        z, ez = y[sl], exp[sl]
+    elif c == "rechunk" and exp.ndim:
+        z = y.rechunk(rand_chunks(rng, exp.shape))
+    elif c == "elemwise":
+        z, ez = y * 2 + 1, exp * 2 + 1
+    with rec.phase("execute"):
+        try:
+            got = z.compute()
+        except Exception as ex:
+            ctx.tab("compute_raised_left_to_C01", f"axes:{mode}:{type(ex).__name__}:{exc_site(ex)}:{msg_key(ex)}")
+            return case, []
+    calls = [cl for cl in _AXLOG if cl["phase"] == "execute"]
+    ctx.count("invocations_logged", len(calls))
+    ctx.count("axes_invocations_logged", len(calls))
+    seen_locs = {}
+    for cl in calls:
+        bi = cl["info"]
+        o = bi.get("None")
+        if o is None:
+            problems.append(("missing_block_info", "block_info[None] missing", f"axes:{mode}:missing_block_info"))
+            break
+        oloc = tuple(o["chunk-location"])
+        seen_locs[oloc] = seen_locs.get(oloc, 0) + 1
+        if oloc not in adv_out:
+            problems.append(("unknown_output_location", f"{mode}: output chunk-location {oloc} not in the advertised grid {[len(cc) for cc in y.chunks]}", f"axes:{mode}:unknown_output_location"))
+            break
+        aloc, shp = adv_out[oloc]
+        if [list(p_) for p_ in o["array-location"]] != aloc or list(o["chunk-shape"]) != shp:
+            problems.append(("output_info_mismatch", f"{mode}: block_info[None] for {oloc}: array-location {o['array-location']} chunk-shape {o['chunk-shape']}, advertised {aloc} {shp}", f"axes:{mode}:output_info_mismatch"))
+            break
+        if cl["out_shape"] != shp:
+            problems.append(("returned_shape", f"{mode}: the kernel's result for {oloc} has shape {cl['out_shape']}, block_info[None] chunk-shape says {shp}", f"axes:{mode}:returned_shape"))
+            break
+        for i, ch in enumerate(in_chunks):
+            b = bi.get(str(i))
+            if b is None:
+                problems.append(("missing_input_info", f"{mode}: block_info[{i}] missing", f"axes:{mode}:missing_input_info"))
+                break
+            r = len(ch)
+            eloc, ealoc, eshape, enum = [], [], [], []
+            for j_ in range(r):
+                pos = R - r + j_  # position in the highest-rank input
+                if pos in dropped:
+                    eloc.append(0)
+                    ealoc.append([0, int(sum(ch[j_]))])
+                    eshape.append(int(sum(ch[j_])))
+                    enum.append(1)
+                else:
+                    bi_ = oloc[out_pos_of_in[pos]]
+                    off = int(sum(ch[j_][:bi_]))
+                    eloc.append(bi_)
+                    ealoc.append([off, off + int(ch[j_][bi_])])
+                    eshape.append(int(ch[j_][bi_]))
+                    enum.append(len(ch[j_]))
+            if list(b["chunk-location"]) != eloc or [list(p_) for p_ in b["array-location"]] != ealoc or list(b["num-chunks"]) != enum or list(b["shape"]) != [int(sum(cc)) for cc in ch]:
+                problems.append(("input_info_mismatch", f"{mode} axes={fkw['axes']}: block_info[{i}] = {b} for output {oloc}; the advertised layout {ch} implies chunk-location {eloc} array-location {ealoc} num-chunks {enum}", f"axes:{mode}:input_info_mismatch"))
+                break
+            if cl["shapes"][i] != eshape:
+                problems.append(("block_shape_mismatch", f"{mode} axes={fkw['axes']}: input {i} block for output {oloc} has shape {cl['shapes'][i]}, its location implies {eshape}", f"axes:{mode}:block_shape_mismatch"))
+                break
+        if problems:
+            break
+    if not problems and c in ("none", "rechunk", "elemwise"):
+        ctx.count("exactly_once_checks")
+        missing = [l for l in adv_out if seen_locs.get(l, 0) == 0]
+        dup = [l for l, n in seen_locs.items() if n > 1]
+        if missing:
+            problems.append(("location_not_invoked", f"{mode}: {len(missing)} advertised output locations never invoked, e.g. {missing[0]}", f"axes:{mode}:location_not_invoked"))
+        if dup:
+            problems.append(("location_invoked_twice", f"{mode}: output location {dup[0]} invoked {seen_locs[dup[0]]} times", f"axes:{mode}:location_invoked_twice"))
+    why = same(ez, got, 1, float(np.abs(ez).max()) if ez.size else 1.0, check_dtype=False)
+    ctx.count("values_compared")
+    if why and not problems:
+        problems.append(("values", f"{mode}: result differs from NumPy: {why}", f"axes:{mode}:values:{why.split()[0]}"))
+    try:
+        settled = type(x)(x.expr).optimize().chunks
+        if tuple(settled) != tuple(x.chunks):
+            ctx.count("settled_layout_differed_from_advertised")
+            case["settled_differs"] = True
+    except Exception:
+        pass
+    return case, problems
 
 
 def _id_fn(x, *others, block_id=None):
@@ -226,7 +446,10 @@ def _id_fn(x, *others, block_id=None):
 
 def run_one(rng, ctx):
     del _IDLOG[:]
-    case, problems = judge(rng, ctx)
+    if rng.random() < 0.4:
+        case, problems = judge_axes(rng, ctx)
+    else:
+        case, problems = judge(rng, ctx)
     ctx.count("calls_checked")
     nb = int(np.prod([len(c) for c in case["chunks"]])) if case["chunks"] else 1
     ctx.seen((case["producer"], tuple(sorted(case["opts"].items())), tuple(map(tuple, case["chunks"]))), nb >= 2 or case.get("settled_differs", False))
